@@ -69,8 +69,16 @@ func (r *Result) Violate(prop, sig, msg string, step int) {
 			return
 		}
 	}
-	r.Viol = append(r.Viol, Violation{Prop: prop, Sig: sig, Msg: msg, Step: step})
+	v := Violation{Prop: prop, Sig: sig, Msg: msg, Step: step}
+	r.Viol = append(r.Viol, v)
+	if partialSink != nil {
+		partialSink(v)
+	}
 }
+
+// partialSink, in a worker process, streams every violation to the orchestrator at the moment it is found, so that
+// it survives a later crash of the system under test in the same execution.
+var partialSink func(Violation)
 
 // Executor runs one job on the real code. It runs on a worker process
 // inside a test so that it may use testing/synctest.
